@@ -15,7 +15,7 @@ from .. import rollharness as rh
 PROPERTY = 'C13'
 LEVEL = 'exploration'
 TECHNIQUE = 'list-model history checker over every reader return + directory snapshots around every write + icontract invariant on RollLog; exhaustive short op sequences, seeded random interleavings'
-RULE = ('random interleavings (10-80 ops) of write (sizes 0..3x file_size, clock/given timestamps, clock steps +/0/-), '
+RULE = ('random interleavings (10-80 ops) of write (sizes 0..3x file_size, clock/given timestamps, clock steps +/0/-; 30 % on a historic or future time base, most of those on microsecond values that do not survive the float round trip), '
         'read, read_block, seek (start/end/own earlier tell()/(file,end)), tell, refresh, writer close+reopen, external '
         'unlink; readers = the writer object and 0-2 rdonly readers with/without autorefresh; modes bin/binl/txt/json; '
         'file_size in {1,7,32,200}; total_size from below one file to 6 files; plus all sequences of length <= 5 (quick) / 6 '
